@@ -144,6 +144,15 @@ static void emit_best(const VList & in, size_t S, const Vector & point, size_t c
     o << "|" << i1 << v1 << i2 << v2 << nb; putVecs(o, arr); o.emit();
 }
 
+// extractBestUsefulPoints (tested only): points that support no hyperplane of their own are moved behind the returned iterator
+static void emit_bup(const VList & pts, const VList & vs, size_t S) {
+    if (vs.empty()) return;
+    VList arr = pts;
+    const size_t k = extractBestUsefulPoints(arr.begin(), arr.end(), vs.begin(), vs.end()) - arr.begin();
+    Line o; o << "C12" << "bup" << S << (size_t)pts.size() << (size_t)vs.size(); putVecs(o, pts); putVecs(o, vs);
+    o << "|" << k; putVecs(o, arr); o.emit();
+}
+
 static void emit_ed(const VList & in, size_t S) {
     VList arr = in;
     auto it = extractDominated(arr.begin(), arr.end());
@@ -391,6 +400,7 @@ void verif::verif_case(Rng & rng, long idx, const std::string & tier) {
         size_t n = rng.coin(1, 12) ? rng.below(3) : 1 + rng.below(nmax);
         int shape; VList vs = genVectors(rng, S, n, shape);
         std::printf("#stat shape%d 1\n#stat dim%zu 1\n", shape, S);
+        if (kind < 2 && n && rng.coin(1, 3)) { VList bp; const size_t np = rng.below(9); for (size_t i = 0; i < np; ++i) bp.push_back(rng.coin(1, 5) && i ? bp[rng.below(i)] : genBelief(rng, S, 3, 2)); emit_bup(bp, vs, S); }
         if (kind < 2) { emit_ed(vs, S); if (n >= 2) emit_dom(vs[rng.below(n)], vs[rng.below(n)]);
                         if (n) { const size_t c = rng.below(S); emit_best(vs, S, rng.coin() ? Vector(Vector::Unit(S, c)) : genBelief(rng, S, 3, 4), c, rng.below(n + 1)); } }
         else if (kind < 4) { size_t k = rng.below(n + 1); emit_edi(VList(vs.begin(), vs.begin() + k), VList(vs.begin() + k, vs.end()), S);
